@@ -65,6 +65,8 @@ Definition check_validation (c : case17) : report :=
            else if negb (Z.eqb (s_hist_after s) (s_hist_before s)) then Some "rejected_not_recorded" else None)
         else if negb ((1 <=? s_limit s)%Z && (s_limit s <=? 100)%Z) then Some "accepted_limit_range"
         else if negb (Z.of_nat (List.length (s_printed s)) <=? s_limit s)%Z then Some "accepted_limit_enforced"
+        (* what is searched and recorded is the validated query itself, not a further edit of it *)
+        else if negb (bytes_eqb (s_hist_last s) (s_clean s)) then Some "validated_query_is_the_query_used"
         else None in
       {| r_verdict := match v with Some cl => VPredFail cl | None => VOk end;
          r_trivial := false; r_tags := ["cli"] ++ (if s_accepted s && s_limit_ok s then ["accepted"] else ["rejected"]) |}
